@@ -192,6 +192,10 @@ def ref_iban(s, t):
     national = {'BE': _be_bban_ok, 'ES': _es_bban_ok, 'NO': _no_bban_ok, 'ME': _me_bban_ok}.get(cc)
     if national and not national(s[4:]):
         return None, 'national-check'
+    if cc == 'BE' and 'be_bank_ranges' in t:
+        # the first three digits are a bank code from the National Bank's list (shipped as be/banks.dat)
+        if not any(lo <= s[4:4 + len(lo)] <= hi for lo, hi in t['be_bank_ranges']):
+            return None, 'bank-code-not-registered'
     return s, None
 
 
